@@ -1,4 +1,5 @@
 import PpciVerif.Proofs.IRText
+import PpciVerif.Proofs.IRBehave
 /-!
 # C15 — IR text format round-trips
 
@@ -15,14 +16,15 @@ identifiers, no keyword as first operand of rol/ror):
 * reading the printed token sequence succeeds and yields `normPhi m`: the module itself with the inputs of
   each phi in the order of the text (the writer sorts them; a phi's inputs are a dictionary in ppci);
 * printing `normPhi m` gives the same text, character by character;
-* the values `Spec.IR` gives the phis of a block on any incoming edge are the same for `m` and `normPhi m`
-  — the only place where the two modules differ.
+* `normPhi m` BEHAVES like `m`: `Spec.IR.exec` gives the same outcome for every configuration, entry point,
+  arguments, external-call oracle and step budget (`same_behaviour`; lock-step simulation in
+  `Proofs.IRBehave`, whose only non-trivial point is the phi evaluation `same_phi_values`).
 
 The step from characters to tokens (`tokenize (printModule fmt m) = toksModule fmt m`) is a hypothesis of
 `roundtrip_partial`; it is NOT proved for all modules: it is *evaluated* by the Lean tokenizer for every
 module of every run (driver op `toks`; a module of the fragment for which it fails is reported).
 
-`roundtrip_full` (all well-formed modules) is NOT proved and is false: five counterexamples below, each
+`roundtrip_full` (all well-formed modules) is NOT proved and is false: four counterexamples below, each
 replayed on ppci by harness/c15.py (open findings irtext:*).
 -/
 namespace Props.C15
@@ -96,9 +98,32 @@ theorem same_phi_values (ctx : Ctx) (env : Env) (pred : String) (m : Module) (h 
   intro i hi
   exact F.phi i (by simp only [Proofs.IRBuild.instrsOf, List.mem_flatMap]; exact ⟨b, hb, hi⟩)
 
-/-- the full statement (every well-formed module; behaviour in Spec.IR for every entry, arguments and oracle).
-    Not proved; false (counterexamples below); the behavioural part beyond `same_phi_values` is compared on
-    samples by the harness. -/
+/-- "behaves identically": for every configuration, entry point, argument vector, oracle of the external calls
+    and step budget, `Spec.IR.exec` gives the same outcome (return value, final globals, external-call trace, or
+    the same UB / undefined-read / out-of-fuel verdict) for `normPhi m` as for `m` -/
+theorem same_behaviour (m : Module) (h : fragCore m = true) (cfg : Config) (oracle : Oracle) (fname : String)
+    (args : List Val) (fuel : Nat) :
+    exec cfg (normPhi m) oracle fname args fuel = exec cfg m oracle fname args fuel := by
+  apply Proofs.IRBehave.exec_normPhi
+  intro f hf b hb i hi
+  have hfc : funcCore m.globalNames f = true := by
+    simp only [fragCore, Bool.and_eq_true, List.all_eq_true] at h; exact h.2 f hf
+  exact (Proofs.IRBuild.funcFacts_of_core hfc).phi i
+    (by simp only [Proofs.IRBuild.instrsOf, List.mem_flatMap]; exact ⟨b, hb, hi⟩)
+
+/-- the property for the fragment, all three clauses: the printed text is read back (given the lexical step, see
+    `roundtrip_partial`), the result prints identically and behaves identically -/
+theorem roundtrip_behaviour_partial (fmt : Nat → List Char) (fparse : String → Option Nat) (m : Module)
+    (h : fragText fmt m = true) (hfp : ∀ b ∈ floatsOf m, fparse (String.ofList (fmt b)) = some b)
+    (hlex : tokenize (printModule fmt m) = .ok (toksModule fmt m)) :
+    ∃ m', readModule fparse (printModule fmt m) = .ok m' ∧ printModule fmt m' = printModule fmt m ∧
+      ∀ cfg oracle fname args fuel, exec cfg m' oracle fname args fuel = exec cfg m oracle fname args fuel := by
+  obtain ⟨h1, h2⟩ := roundtrip_partial fmt fparse m h hfp hlex
+  have hcore : fragCore m = true := by
+    simp only [fragText, Bool.and_eq_true] at h; exact h.1.1.1.1
+  exact ⟨normPhi m, h1, h2, fun cfg oracle fname args fuel => same_behaviour m hcore cfg oracle fname args fuel⟩
+
+/-- the full statement (every well-formed module).  Not proved; false (counterexamples below). -/
 def roundtrip_full : Prop :=
   ∀ (fmt : Nat → List Char) (fparse : String → Option Nat) (m : Module), wfModule m = true →
     (∀ b, fparse (String.ofList (fmt b)) = some b) →
@@ -155,16 +180,13 @@ def withAsm : Module := oneFunc "asm" none [("a", .int .i32)] [.asm "nop" [.loc 
 example : wfModule withAsm = true := by decide
 example : errOf (readModule fparse0 (printModule fmt0 withAsm)) = some .KeyError := by decide
 
-/-- irtext:float-nonfinite — `str(float('inf'))` is the identifier `inf`: NotImplementedError;
-    `-inf` is read as the negation of a value named `inf` WITHOUT any error: another module -/
+/-- non-finite float constants (fixed in /repo: written as `float 'inf'`): inside the fragment, read back exactly -/
 def withFloat : Module := oneFunc "nonfinite" (some .f64) [] [.const "x" .f64 (.fbits 0x7ff0000000000000), .ret (.loc "x")]
-example : wfModule withFloat = true := by decide
-example : fragText (fun _ => "inf".toList) withFloat = false := by decide
-example : errOf (readModule (fun _ => none) (printModule (fun _ => "inf".toList) withFloat)) =
-    some .NotImplementedError := by decide
-set_option maxRecDepth 8192 in
-example : okAnd (readModule (fun _ => none) (printModule (fun _ => "-inf".toList) withFloat))
-    (fun m' => decide (m' ≠ withFloat)) = true := by decide
+def fmtInf (_ : Nat) : List Char := "-inf".toList
+def fparseInf (s : String) : Option Nat := if s = "-inf" then some 0x7ff0000000000000 else none
+example : fragText fmtInf withFloat = true := by decide
+example : okAnd (readModule fparseInf (printModule fmtInf withFloat)) (fun m' => decide (m' = withFloat)) = true := by
+  decide
 
 /-- irtext:name-capture — the value `x` of `f` hides the module-level `x`; `ir.Load` gets an i32 address -/
 def capture : Module :=
